@@ -125,6 +125,70 @@ class Plugin(BasePlugin):
         o['meta_same'] = (m0 == m1 == meta(db, out_target))
         return o
 
+    def extra_checks(self, rng, tier, seed):
+        """The stages OUTSIDE the Coq model ($graphLookup with and without restrictSearchWithMatch,
+        $bucket, $sortByCount, $count, $redact-free ones the library implements), alone or next to
+        modelled stages, observed on the implementation only: the same pipeline object run twice -
+        the pipeline still equals its deep copy, no collection / index / catalog entry moved, both
+        runs answer the same."""
+        n = 150 if tier == 'quick' else 3000
+        viol, done, kinds = [], 0, {}
+        for i in range(n):
+            docs = genpipe.gen_docs(rng)
+            other = genpipe.gen_other(rng)
+            for k, d in enumerate(other):
+                d['boss'] = rng.choice([None, 1, 2, 3, 'a'])
+            kind = rng.choice(['graph', 'graph', 'graph-restrict', 'graph-restrict', 'bucket', 'sortByCount', 'count'])
+            if kind.startswith('graph'):
+                spec = {'from': rng.choice(['o', 'o', 'c']), 'startWith': rng.choice(['$k', '$n', '$d.x']),
+                        'connectFromField': rng.choice(['boss', 'k']), 'connectToField': rng.choice(['k', '_id']),
+                        'as': rng.choice(['chain', 'd', 'n'])}
+                if rng.random() < 0.4:
+                    spec['maxDepth'] = rng.choice([0, 1, 2])
+                if rng.random() < 0.3:
+                    spec['depthField'] = 'depth'
+                if kind == 'graph-restrict':
+                    spec['restrictSearchWithMatch'] = rng.choice([{'v': 'u'}, {'v': {'$in': ['u', 'w']}}, {}, {'k': {'$ne': None}}])
+                st = {'$graphLookup': spec}
+            elif kind == 'bucket':
+                st = {'$bucket': {'groupBy': '$n', 'boundaries': [-5, 1, 3, 10], 'default': 'rest',
+                                  'output': {'c': {'$sum': 1}, 'ids': {'$push': '$_id'}}}}
+            elif kind == 'sortByCount':
+                st = {'$sortByCount': rng.choice(['$g', '$s'])}
+            else:
+                st = {'$count': 'total'}
+            pre = [self.stage(rng) for _ in range(rng.choice([0, 0, 1]))]
+            post = [self.stage(rng) for _ in range(rng.choice([0, 0, 1]))] if kind.startswith('graph') else []
+            case = {'docs': docs, 'other': other, 'target': [], 'pipeline': pre + [st] + post}
+            if '$sample' in genpipe.stage_names(case['pipeline']):
+                continue
+            try:
+                o = self.run_impl(case)
+            except Exception as e:  # noqa
+                viol.append({'case': common.to_jsonable(case), 'impl': {'harness': repr(e)[:200]},
+                             'failing_clause': 'the observation of an aggregation raised'})
+                continue
+            done += 1
+            kinds[kind] = kinds.get(kind, 0) + 1
+            if 'err' in o['r1'] and o['r1'].get('exc') == 'NotImplementedError':
+                continue
+            bad = None
+            if not o['pipe_same']:
+                bad = 'aggregate() changed the pipeline object of its caller'
+            elif not (o['w0'] == o['w1'] == o['w2']):
+                bad = 'an aggregation without $out changed a collection'
+            elif not o['meta_same']:
+                bad = 'an aggregation changed index information or the catalog'
+            elif o['r1'] != o['r2']:
+                bad = 'the same pipeline answered differently the second time'
+            if bad:
+                viol.append({'case': common.to_jsonable(case),
+                             'impl': {'r1': common.to_jsonable(o['r1']), 'r2': common.to_jsonable(o['r2'])},
+                             'failing_clause': bad})
+                if len(viol) >= 3:
+                    break
+        return viol, {'unmodelled_stage_probes': done, 'unmodelled_stage_kinds': kinds}
+
     def case_term(self, case, o):
         def w(x):
             return coq_list('("%s", %s)' % (n, coq_list(to_coq(d) for d in x[n])) for n in NAMES)
